@@ -55,7 +55,8 @@ def gen_cases(tier: str, seed: int):
         cfg = {"n_chain": n_chain, "n_warm": n_warm, "n_main": int(COUNTS[int(rng.integers(0, 5))]),
                "adapters": adapters if n_warm > 0 or rng.integers(0, 2) else [], "stager": stager if adapters else None,
                "seed": int(rng.integers(0, 10**6)), "model_seed": int(rng.integers(0, 100)), "dim": int(rng.integers(1, 4)),
-               "trace": [[], ["pos"], ["pos", "scalars"], ["energy", "int_vec"]][int(rng.integers(0, 4))],
+               "trace": [[], ["pos"], ["pos", "scalars"], ["energy", "int_vec"], ["odd_keys", "pos"]][int(rng.integers(0, 5))],
+               "display_progress": bool(i % 7 == 3),
                "trace_warm_up": bool(rng.integers(0, 2)), "transition": ["static", "random", "multinomial", "slice"][i % 4],
                "init": ["state", "dict", "array", "state_nomom"][int(rng.integers(0, 4))],
                "front_end": "hmc" if rng.integers(0, 3) else "mcmc", "grad_returns_value": bool(rng.integers(0, 2))}
@@ -291,6 +292,8 @@ def run_case(case, obs) -> None:
                 obs.count("npy_files_reread", len(files))
                 want = {}
                 for key, arrs in (out2.traces or {}).items():
+                    if any(not (ch.isalnum() or ch in "._- ") for ch in key):
+                        continue  # file name of such keys is an implementation detail; contents are judged via the arrays
                     for c, a in enumerate(arrs):
                         want[f"trace_{c}_{key}.npy"] = np.asarray(a)
                 st2 = out2.statistics if mcfg.get("front_end", "hmc") == "hmc" else out2.statistics.get("integration_transition", {})
